@@ -337,10 +337,13 @@ def worker(args) -> dict:
     samples: list = []
     evals = 0
 
+    trace = hashlib.sha1()
+
     def note(src, o, kind):
         nonlocal evals
         evals += 1
         c = o["class"]
+        trace.update(hashlib.sha1(src.encode()).digest())  # which programs ran, in which order (determinism audit)
         cnt[f"{stream}:{c}"] += 1
         if c == "user":
             cnt["diag:" + o["diag"]] += 1
@@ -403,7 +406,8 @@ def worker(args) -> dict:
             mn, nm = SWEEP[i]
             src = sweep_program(mn, nm, SWEEP_ARGS[a], SWEEP_FORMS[fi])
             note(src, evaluate(src), "sweep")
-    return {"counts": dict(cnt), "fails": fails, "nontrivial": sorted(nontrivial), "samples": samples, "evals": evals}
+    return {"counts": dict(cnt), "fails": fails, "nontrivial": sorted(nontrivial), "samples": samples, "evals": evals,
+            "trace": trace.hexdigest()}
 
 
 def run_batches(batches, procs=8):
